@@ -134,17 +134,20 @@ def _traj(cell: int):
     t = Trajectory(xyz, None)
     if cell:
         t.unitcell_lengths = np.array([[2.0, 3.0, 4.0], [2.5, 3.0, 4.0]], dtype=np.float32)
-        ang = {1: [[90.0, 90.0, 90.0]] * 2, 2: [[90.0, 90.0, 90.0], [90.0, 80.0, 90.0]], 3: [[60.0, 70.0, 80.0]] * 2, 4: [[90.0, 90.0, 90.00001]] * 2}[cell]
+        ang = {1: [[90.0, 90.0, 90.0]] * 2, 2: [[90.0, 90.0, 90.0], [90.0, 80.0, 90.0]], 3: [[60.0, 70.0, 80.0]] * 2, 4: [[90.0, 90.0, 90.00001]] * 2,
+               5: [[80.0, 90.0, 90.0]] * 2, 6: [[90.0, 80.0, 90.0]] * 2, 7: [[90.0, 90.0, 80.0]] * 2}[cell]      # 5..7: a single angle off 90
         t.unitcell_angles = np.array(ang, dtype=np.float32)
     return t
 
 
-def dispatch(which: bool, cell: int, periodic: bool, opt: bool) -> bool:
+def dispatch(which: bool, cell: int, periodic: bool, opt: bool, ptype: int = 0) -> bool:
     """
-    pre: 0 <= cell <= 4
+    pre: 0 <= cell <= 7 and 0 <= ptype <= 2
     post: __return__
     """
-    cell = conc(cell, 0, 4)
+    cell, ptype = conc(cell, 0, 7), conc(ptype, 0, 2)
+    flag = periodic
+    periodic = [bool, np.bool_, int][ptype](periodic)        # the flag as a Python bool, a numpy bool (e.g. an element of a mask) or 0/1
     mod = _ang if which else _dih
     rec = _Rec()
     mod._geometry = rec
@@ -157,9 +160,9 @@ def dispatch(which: bool, cell: int, periodic: bool, opt: bool) -> bool:
     idx = [[0, 1, 2], [1, 2, 3]] if which else [[0, 1, 2, 3]]
     (mod.compute_angles if which else mod.compute_dihedrals)(t, idx, periodic=periodic, opt=opt)
     kname = "_angle" if which else "_dihedral"
-    use_cell = periodic and cell != 0
+    use_cell = flag and cell != 0
     if not opt:
-        return rec.calls == [] and ref == [("ref", periodic)]
+        return rec.calls == [] and len(ref) == 1 and bool(ref[0][1]) == bool(flag)
     if len(rec.calls) != 1 or ref:
         return False
     name, a = rec.calls[0]
@@ -172,3 +175,91 @@ def dispatch(which: bool, cell: int, periodic: bool, opt: bool) -> bool:
     ok = box.shape == (2, 3, 3) and all(np.array_equal(box[f], vec[f].T) for f in range(2)) and box.flags["C_CONTIGUOUS"]
     orth_want = cell in (1, 4)      # every frame within np.allclose of 90 degrees
     return ok and bool(a[4]) == orth_want and [list(r) for r in a[1]] == idx
+
+
+# ------------------------------------------------------------------ the numpy reference paths (opt=False)
+
+def reference_paths(which: bool, periodic: bool, ptype: int) -> bool:
+    """
+    pre: 0 <= ptype <= 1
+    post: __return__
+    """
+    # _angle / _dihedral: every bond vector is requested with the CALLER's periodic flag (and opt=False), for the right atom pairs, and the value
+    # returned is acos / atan2 of the textbook expression of exactly those vectors
+    import math
+    ptype = conc(ptype, 0, 1)
+    flag = periodic
+    periodic = [bool, np.bool_][ptype](periodic)
+    mod = _ang if which else _dih
+    calls = []
+    rng = np.random.RandomState(3)
+    vecs = {}
+
+    def disp(traj, pairs, periodic=True, opt=True):
+        pairs = np.asarray(pairs)
+        calls.append(([tuple(int(v) for v in p) for p in pairs], bool(periodic), bool(opt)))
+        out = np.zeros((2, len(pairs), 3), dtype=np.float32)
+        for k, (a, b) in enumerate(pairs):
+            key = (int(a), int(b))
+            if key not in vecs:
+                vecs[key] = rng.randn(2, 3).astype(np.float32)
+            out[:, k, :] = vecs[key]
+        return out
+    mod.distance = __import__("types").SimpleNamespace(compute_displacements=disp)
+    t = _traj(3)
+    if which:
+        idx = np.array([[0, 1, 2], [3, 1, 0]])
+        out = np.zeros((2, 2), dtype=np.float32)
+        got = mod._angle(t, idx, periodic, out)
+        want_pairs = {(1, 0), (1, 2), (1, 3)}
+    else:
+        idx = np.array([[0, 1, 2, 3], [3, 2, 0, 1]])
+        got = mod._dihedral(t, idx, periodic)
+        want_pairs = {(0, 1), (1, 2), (2, 3), (3, 2), (2, 0)}
+    asked = {p for c in calls for p in c[0]}
+    if asked != want_pairs or any(c[1] != bool(flag) or c[2] for c in calls):
+        return False
+    got = np.asarray(got)
+    for f in range(2):
+        for r, row in enumerate(idx):
+            if which:
+                u, v = vecs[(row[1], row[0])][f].astype(float), vecs[(row[1], row[2])][f].astype(float)
+                w = math.acos(max(-1.0, min(1.0, float(u @ v / np.linalg.norm(u) / np.linalg.norm(v)))))
+            else:
+                b1, b2, b3 = (vecs[(row[k], row[k + 1])][f].astype(float) for k in range(3))
+                w = math.atan2(np.linalg.norm(b2) * float(b1 @ np.cross(b2, b3)), float(np.cross(b1, b2) @ np.cross(b2, b3)))
+            d = abs(float(got[f, r]) - w)
+            if min(d, abs(d - 2 * math.pi)) > 1e-4:
+                return False
+    return True
+
+
+# ------------------------------------------------------------------ named torsions after in-place topology edits
+
+def torsions_after_edit(which: int, edit: int, primed: bool) -> bool:
+    """
+    pre: 0 <= which <= 3 and 0 <= edit <= 3
+    post: __return__
+    """
+    # history: (optionally) query once, edit the SAME topology in place through the public API, query again: the second answer must be what a
+    # freshly built topology with the edited content gives
+    which, edit = conc(which, 0, 3), conc(edit, 0, 3)
+    f = [_dih.indices_phi, _dih.indices_psi, _dih.indices_omega, _dih.indices_chi1][which]
+    res = [["N", "CA", "CB", "CG", "C"], ["N", "CA", "CB", "CG", "C"], ["N", "CA", "CB", "XG", "C"]]
+    top = _topo(res, [0, 0, 0])
+    if primed:
+        f(top)
+    atoms = list(top.atoms)
+    if edit == 0:
+        atoms[13].name = "CG"                     # residue 2: XG -> CG (chi1 becomes defined there)
+        res2 = [res[0], res[1], ["N", "CA", "CB", "CG", "C"]]
+    elif edit == 1:
+        atoms[5].name = "NX"                      # residue 1 loses its N
+        res2 = [res[0], ["NX", "CA", "CB", "CG", "C"], res[2]]
+    elif edit == 2:
+        top.delete_atom_by_index(2)               # residue 0 loses CB: every later index shifts
+        res2 = [["N", "CA", "CG", "C"], res[1], res[2]]
+    else:
+        res2 = res
+    fresh = _topo(res2, [0, 0, 0])
+    return [list(map(int, r)) for r in f(top)] == [list(map(int, r)) for r in f(fresh)]
